@@ -8,7 +8,10 @@
     [block_split]: the usage block of a built flattened level whose subcommands are [S0 ++ [h]] is [common_block] (own
     line + the lines of [S0]) followed by the lines of [h] as [build()] leaves it; [common_block_subs]: the common part
     does not read the level's subcommand list.  [lazy_built] / [exp_built]: the lines of the two help shapes.
-    Together these are the steps of the level theorem stated in docs/notes/C11.md (not closed: see there). *)
+    [flatten_help_shape_level]: the flattened usage blocks of the two builds of a flattened level are
+    [common ++ [help line]] with the same [common] and the two forms of the help line -- the recorded finding
+    C11-flatten-help-subcommand-shape as a theorem; the normalisation of the classifier in vp/props/c11.py
+    ([flatten_help_shape]: read ` help [COMMAND]...` as ` help [COMMAND]`) is its conclusion. *)
 From Coq Require Import List Bool Lia NArith.
 Import ListNotations.
 From ClapModel Require Import Base.Bytes Base.Machine Parse.Cmd Parse.Valid Parse.Matcher Parse.Errors Parse.Validator.
@@ -16,7 +19,6 @@ From ClapModel Require Import Gen.HelpTables Help.UsageModel Help.HelpModel Help
 From RecordUpdate Require Import RecordSet.
 Import RecordSetNotations.
 Open Scope N_scope.
-
 
 (** the part of [_check_help_and_version] before the help subcommand is pushed *)
 Definition hcv_pre (c : hcmd) : hcmd :=
@@ -184,6 +186,107 @@ Proof.
   destruct (exp_help_line 62%nat P (bin_name_fallback x) t he' G) as [H1 [H2 [_ U]]]. auto.
 Qed.
 
+Lemma lc_vis0 P S0 xl : hc_subs xl = S0 ++ [help_of false P] -> existsb vis_pred S0 = existsb vis_pred (hc_subs P) ->
+  flat_cond xl = true -> existsb vis_pred (hc_subs P) = true.
+Proof.
+  intros Sl Hnh Hf. unfold flat_cond in Hf. apply andb_true_iff in Hf. destruct Hf as [Hv _]. unfold has_visible_subcommands in Hv.
+  rewrite Sl in Hv. change (existsb vis_pred (S0 ++ [help_of false P]) = true) in Hv. rewrite existsb_app in Hv.
+  cbn [existsb] in Hv. replace (vis_pred (help_of false P)) with false in Hv by reflexivity. rewrite !orb_false_r in Hv.
+  rewrite <- Hnh. exact Hv.
+Qed.
+
+Lemma lc_flat_e P S0 xl : existsb vis_pred S0 = true -> hc_flatten xl = true ->
+  flat_cond (xl <| hc_subs := S0 ++ [help_of true P] |>) = true.
+Proof.
+  intros Hv Hfl. destruct (subs_fields xl (S0 ++ [help_of true P])) as [_ [Se [Fe _]]].
+  unfold flat_cond. apply andb_true_iff. split.
+  - unfold has_visible_subcommands. rewrite Se. change (existsb vis_pred (S0 ++ [help_of true P]) = true).
+    rewrite existsb_app. apply orb_true_iff. left. exact Hv.
+  - rewrite Fe. exact Hfl.
+Qed.
+
+Lemma lc_block_l f P S0 xl t ll :
+  hc_built xl = true -> hc_subs xl = S0 ++ [help_of false P] -> flat_cond xl = true -> h_mid_string xl = Some (32 :: t) ->
+  usage_lines (S f) xl = Some ll ->
+  exists cm, common_block f xl S0 = Some cm /\ ll = cm ++ [[bin_name_fallback xl ++ (32 :: t) ++ s_help; s_cmd_lazy]].
+Proof.
+  intros Bl Sl Hf Hm Hl. destruct (lazy_built xl P t) as [hl' [Gl' [Hhl [Hfl' Ul]]]].
+  rewrite (block_split f xl S0 (help_of false P) (32 :: t) hl' Bl Sl Hf Hm Gl' Hhl) in Hl.
+  destruct (common_block f xl S0) as [cm|]; [|discriminate].
+  rewrite (usage_lines_plain f hl' Hfl'), Ul in Hl. cbn [option_map] in Hl. inversion Hl. exists cm. split; reflexivity.
+Qed.
+
+Lemma lc_sub_e f xe S0 h mid le :
+  hc_built xe = true -> hc_subs xe = S0 ++ [h] -> flat_cond xe = true -> h_mid_string xe = Some mid ->
+  usage_lines (S f) xe = Some le -> exists h', sub_built xe mid h = Some h'.
+Proof.
+  intros Be Se Hfe Hme He. cbn [usage_lines] in He. rewrite Hfe, (h_build_built xe Be), Hme, Se, map_opt_app in He.
+  destruct (if own_cond xe then _ else _); [|discriminate].
+  destruct (map_opt (sub_built xe mid) S0); [|discriminate]. cbn [map_opt] in He.
+  destruct (sub_built xe mid h) as [h'|]; [eauto|discriminate].
+Qed.
+
+Lemma lc_block_e f P S0 xe t le :
+  hc_built xe = true -> hc_subs xe = S0 ++ [help_of true P] -> flat_cond xe = true -> h_mid_string xe = Some (32 :: t) ->
+  existsb vis_pred (hc_subs P) = true ->
+  usage_lines (S f) xe = Some le ->
+  exists cm, common_block f xe S0 = Some cm /\ le = cm ++ [[bin_name_fallback xe ++ (32 :: t) ++ s_help; s_cmd_exp]].
+Proof.
+  intros Be Se Hfe Hme Hv He. destruct (lc_sub_e f xe S0 _ _ le Be Se Hfe Hme He) as [he' Ge].
+  destruct (exp_built xe P t he' Ge) as [Hhe [Hfe' Ue]]. rewrite Hv in Ue.
+  rewrite (block_split f xe S0 (help_of true P) (32 :: t) he' Be Se Hfe Hme Ge Hhe) in He.
+  destruct (common_block f xe S0) as [cm|]; [|discriminate].
+  rewrite (usage_lines_plain f he' Hfe'), Ue in He. cbn [option_map] in He. inversion He. exists cm. split; reflexivity.
+Qed.
+
+Lemma level_core f P S0 xl ll le :
+  hc_built xl = true -> hc_subs xl = S0 ++ [help_of false P] -> existsb vis_pred S0 = existsb vis_pred (hc_subs P) ->
+  flat_cond xl = true -> usage_lines (S f) xl = Some ll ->
+  usage_lines (S f) (xl <| hc_subs := S0 ++ [help_of true P] |>) = Some le ->
+  exists common mid, h_mid_string xl = Some mid
+    /\ ll = common ++ [[bin_name_fallback xl ++ mid ++ s_help; s_cmd_lazy]]
+    /\ le = common ++ [[bin_name_fallback xl ++ mid ++ s_help; s_cmd_exp]].
+Proof.
+  intros Bl Sl Hnh Hf Hl He.
+  pose proof (lc_vis0 P S0 xl Sl Hnh Hf) as Hvis0.
+  assert (Hfl : hc_flatten xl = true) by (unfold flat_cond in Hf; apply andb_true_iff in Hf; apply Hf).
+  assert (Hv0 : existsb vis_pred S0 = true) by (rewrite Hnh; exact Hvis0).
+  pose proof (lc_flat_e P S0 xl Hv0 Hfl) as Hfe.
+  destruct (subs_fields xl (S0 ++ [help_of true P])) as [Be [Se [_ Ne]]]. rewrite Bl in Be.
+  destruct (h_mid_string xl) as [mid|] eqn:Hm.
+  2:{ exfalso. destruct (lc_sub_e f xl S0 (help_of false P) (32 :: []) ll Bl Sl Hf) as [x _]; try assumption.
+      all: cbn [usage_lines] in Hl; rewrite Hf, (h_build_built xl Bl), Hm in Hl; destruct (if own_cond xl then _ else _); discriminate. }
+  destruct (mid_string_head xl mid Hm) as [t ->].
+  assert (Hme : h_mid_string (xl <| hc_subs := S0 ++ [help_of true P] |>) = Some (32 :: t)) by (rewrite mid_string_subs; exact Hm).
+  destruct (lc_block_l f P S0 xl t ll Bl Sl Hf Hm Hl) as [cm [Ec ->]].
+  destruct (lc_block_e f P S0 _ t le Be Se Hfe Hme Hvis0 He) as [cm' [Ec' ->]].
+  rewrite common_block_subs, Ec in Ec'. inversion Ec'. subst cm'. rewrite Ne.
+  exists cm, (32 :: t). repeat split.
+Qed.
+
+(** C11_flatten_help_shape_level: an unbuilt level [c] whose help subcommand is not disabled, with the setting and
+    visible subcommands.  The flattened usage blocks of its two builds -- lazy (the parser entered it earlier) and
+    eager (built for the rendering) -- are the same lines followed by the line of the generated [help] subcommand,
+    which reads [.. help [COMMAND]...] in the first and [.. help [COMMAND]] in the second. *)
+Theorem flatten_help_shape_level f c ll le :
+  help_sub_off c = false ->
+  flat_cond (h_build_self_x false c) = true ->
+  usage_lines (S f) (h_build_self_x false c) = Some ll ->
+  usage_lines (S f) (h_build_self_x true c) = Some le ->
+  exists common mid, h_mid_string (h_build_self_x false c) = Some mid
+    /\ ll = common ++ [[bin_name_fallback (h_build_self_x false c) ++ mid ++ s_help; s_cmd_lazy]]
+    /\ le = common ++ [[bin_name_fallback (h_build_self_x false c) ++ mid ++ s_help; s_cmd_exp]].
+Proof.
+  unfold help_sub_off. intros Hoff. apply orb_false_iff in Hoff. destruct Hoff as [Hoff Hs].
+  apply orb_false_iff in Hoff. destruct Hoff as [Hb Hn].
+  rewrite (build_x_on false c Hb Hn Hs), (build_x_on true c Hb Hn Hs).
+  generalize (build_pre c). intros P.
+  rewrite (mk_subs P (build_hargs (hc_args P) 1) (map (glob_fn P) (hc_subs P) ++ [help_of false P]) (map (glob_fn P) (hc_subs P) ++ [help_of true P])).
+  destruct (mk_fields P (build_hargs (hc_args P) 1) (map (glob_fn P) (hc_subs P) ++ [help_of false P])) as [Bl Sl].
+  intros Hf Hl He.
+  apply (level_core f P (map (glob_fn P) (hc_subs P)) _ ll le Bl Sl); try assumption.
+  apply existsb_nh. rewrite map_map. apply map_ext. intros sc. apply nh_glob_fn.
+Qed.
 
 (** C11_flatten_help_shape_builds: the lazy and the eager build of a level are the same record up to the LAST
     subcommand, which is the generated [help] in its two shapes *)
@@ -204,3 +307,13 @@ Qed.
 
 Example shape_builds_satisfiable : help_sub_off sh_on = false.
 Proof. vm_compute. reflexivity. Qed.
+
+(** non-vacuity of [flatten_help_shape_level]: [sh_on] = `p` (flatten_help) with one subcommand `a`; both builds
+    render, and the two blocks are [`p`; `p a`] followed by `p help [COMMAND]...` / `p help [COMMAND]` *)
+Example shape_level_satisfiable :
+  help_sub_off sh_on = false /\ flat_cond (h_build_self_x false sh_on) = true
+  /\ option_map (map line_text) (usage_lines 2 (h_build_self_x false sh_on))
+     = Some [[112]; [112; 32; 97]; [112; 32] ++ s_help ++ [32] ++ s_cmd_lazy]
+  /\ option_map (map line_text) (usage_lines 2 (h_build_self_x true sh_on))
+     = Some [[112]; [112; 32; 97]; [112; 32] ++ s_help ++ [32] ++ s_cmd_exp].
+Proof. repeat split; vm_compute; reflexivity. Qed.
